@@ -330,6 +330,7 @@ def r6(ctx, lib):
 EXCEPTIONS_R7 = {
     # (body path, callee regex): reason
     ('<lock::FileLock as std::ops::Drop>::drop', r'fcntl_unlock$'): 'unlock in Drop: nothing can be done about a failure, the descriptor is closed right after',
+    ('dedupe::FsCommand::check_can_rename', r'symlink_metadata$'): 'existence probe: `is_ok()` of the lstat *is* the answer (any failure = nothing there to overwrite; the following rename/copy reports real errors)',
     ('dedupe::FsCommand::execute', r'FsCommand::move_rename$'): 'documented fall-back: a failed rename falls through to move_copy, which reports its own error',
 }
 
